@@ -832,6 +832,8 @@ class Engine:
         prev = -1
         visits = {}
         frame = {'env': env, 'fn': f}
+        if getattr(self, 'iv_mode', None) is not None:
+            self.iv_mode.cur_func = f
         while True:
             b = blocks[bi]
             if self.on_block is not None:
@@ -889,6 +891,8 @@ class Engine:
                     raise
                 if 'name' in ins:
                     env[ins['name']] = r
+                if op == 'Call' and getattr(self, 'iv_mode', None) is not None:
+                    self.iv_mode.cur_func = f
             prev, bi = bi, nxt
 
     def val(self, env, a):
@@ -1254,6 +1258,8 @@ class Engine:
 
     # ------------------------------------------------------------------ arithmetic
     def binop(self, op, a, b, ta, tb, tr):
+        if getattr(a, '_is_iv', False) or getattr(b, '_is_iv', False):
+            return self.iv_mode.binop(op, a, b, tr)
         if isinstance(a, (ByteOf, OrBytes)) or isinstance(b, (ByteOf, OrBytes)):
             if op == '|':
                 oa, ob = OrBytes.of(a), OrBytes.of(b)
@@ -1524,6 +1530,9 @@ class Engine:
         raise Unsupported('unop ' + op)
 
     def convert(self, v, tf, tt):
+        if getattr(v, '_is_iv', False):
+            fi, ti = self.prog.intinfo(tf), self.prog.intinfo(tt)
+            return self.iv_mode.convert(v, fi[0], ti[0])
         v = force(v)
         pf = self.prog
         df = pf.under(tf)
